@@ -464,6 +464,24 @@ def check_assembly(fx, rep, rule, name, conv_name):
         if not o(("is", r, "Some")):
             return NONE
         return some(("tuple", (params, mk_payload(r, "Some", "0"))))
+    # explicit-loop form: `for p in types { if p.is_empty() { continue } if let Some(t) = convert(p, recv) { out.push(t) } }`
+    loop_ok = None
+    if len(sy.loop_order) == 1:
+        loop_ok = params_loop_form(fx, sy, sy.loops[sy.loop_order[0]], types, CV, recv)
+    if loop_ok is not None:
+        okl, desc_l, V, idx = loop_ok
+        PARAMS = call("std::iter::Iterator::collect", call("std::iter::Iterator::filter_map", call("std::iter::Iterator::filter", types, ("closure#",)), ("closure#",)))
+
+        def rw2(t):
+            if okl and t == ("loop", V, idx):
+                return PARAMS
+            return None
+        bad, n = fc.compare_paths(res, ref, lambda st, out: fc.rewrite(out[1], rw2), rw=rw2)
+        R1.report_cmp(rep, rule, "%s/%s/assembly" % (rule, name), b, res, bad,
+                      "split?; parameters = the non-empty tokens converted in order (explicit loop); return = convert(ret)?")
+        rep.check(rule, "%s/%s/closures" % (rule, name), okl, loc=F.short_file(b["sp"]), found=desc_l,
+                  expected="per token: skipped if empty, pushed if convert(token, mapping) is Some, dropped otherwise; nothing else")
+        return
     bad, n = fc.compare_paths(res, ref, lambda st, out: fc.rewrite(out[1], rw), rw=rw)
     R1.report_cmp(rep, rule, "%s/%s/assembly" % (rule, name), b, res, bad,
                   "split?; parameters = types.filter(non-empty).filter_map(convert).collect(); return = convert(ret)?")
@@ -482,6 +500,52 @@ def check_assembly(fx, rep, rule, name, conv_name):
         okc = t0 == ("not", ("empty", ("bound", 0))) and t1 == call(CV, ("bound", 0), recv)
     rep.check(rule, "%s/%s/closures" % (rule, name), okc, loc=F.short_file(b["sp"]), found=descs or "%d closures" % len(seen),
               expected="filter(|p| !p.is_empty()) and filter_map(|p| convert(p, mapping))")
+
+
+def params_loop_form(fx, sy, L, types, CV, recv):
+    """(ok, description, accumulator name, loop index) for the explicit-loop form of the parameter conversion, or None"""
+    import readers as RD
+    drv = RD.driver_of_loop(L)
+    if drv not in (types, call("std::iter::IntoIterator::into_iter", types), call("core::slice::iter", types), call("std::vec::Vec::into_iter", types)):
+        return None
+    base = len(L["entry"].conds)
+    accs = {e[2][0][1] for st, o in L["paths"] for e in st.effects if e[0] == "call" and e[1].endswith("Vec::push") and e[2][0][0] == "place"}
+    if len(accs) != 1:
+        return None
+    V = list(accs)[0]
+    vid = None
+    for n_ in F.walk(L["node"]["body"]):
+        if n_.get("k") in ("Var", "Upvar") and n_.get("name") == V:
+            vid = n_["id"]
+    pre = L["pre"].env.get(vid)
+    okp = pre is not None and pre[0] == "call" and pre[1] in ("std::vec::Vec::new", "std::vec::Vec::with_capacity")
+    desc = ["driver %s" % S.tstr(drv), "initial %s" % (S.tstr(pre) if pre else "?")]
+    conv = call(CV, R.ELEM, recv)
+    seen_kinds = set()
+    for st, (k, v) in L["paths"]:
+        conds = tuple((fc.rewrite(a_, R.rw_iter), p_) for a_, p_ in st.conds[base:])
+        effs = [fc.rewrite(e_, R.rw_iter) for e_ in st.effects if e_[0] == "call" and not R.is_next(e_[1])]
+        a_ = fc.assignment(conds)
+        desc.append("%s -> %s [%s]" % (S.cstr(conds)[:140], [S.tstr(e_)[:80] for e_ in effs], k))
+        if a_.get(("is", R.NEXT, "Some")) is False:
+            okp = okp and k == S.BRK and not effs
+            seen_kinds.add("end")
+            continue
+        emp = a_.get(fc.canon_atom(("empty", R.ELEM))[0])
+        has = a_.get(fc.canon_atom(("is", conv, "Some"))[0])
+        if emp is True:
+            okp = okp and k == S.CONT and not effs
+            seen_kinds.add("empty")
+        elif emp is False and has is True:
+            okp = okp and k == S.CONT and len(effs) == 1 and effs[0][1].endswith("Vec::push") and effs[0][2] == (("place", V, ()), mk_payload(conv, "Some", "0"))
+            seen_kinds.add("push")
+        elif emp is False and has is False:
+            okp = okp and k == S.CONT and not effs
+            seen_kinds.add("drop")
+        else:
+            okp = False
+    okp = okp and seen_kinds == {"end", "empty", "push", "drop"}
+    return okp, desc, V, L["index"]
 
 
 def check_format_signature(fx, rep, rule):
@@ -582,7 +646,13 @@ def run(ctx, rep):
     check_format_signature(fx, rep, "C16.4")
     import api_rules as AR
     AR.check_getters(fx, rep, "C16.api", "mapper::DeobfuscatedSignature")
-    AR.check_constructor(fx, rep, "C16.api", "mapper::DeobfuscatedSignature", "new", {"parameters": ("lit", mk_field(("in", "signature"), "0")), "return_type": ("lit", mk_field(("in", "signature"), "1"))})
+    # the single (tuple) parameter may be bound to a name or destructured in the parameter pattern
+    ds_new = A.method(fx, "mapper::DeobfuscatedSignature", "new")
+    pn = "signature"
+    if len(ds_new) == 1:
+        pp_ = [prm.get("pat") for prm in fx.bodies[ds_new[0]]["params"] if prm.get("pat")]
+        pn = pp_[0].get("name", "arg0") if pp_ and pp_[0].get("k") == "Bind" else "arg0"
+    AR.check_constructor(fx, rep, "C16.api", "mapper::DeobfuscatedSignature", "new", {"parameters": ("lit", mk_field(("in", pn), "0")), "return_type": ("lit", mk_field(("in", pn), "1"))})
     check_entry_points(fx, rep, "C16.api")
     # "replaced by the original class name when the mapping knows it": class registration in both builders and the
     # exact class lookup (shared with C04.1 / C04.2) are premises of the object-type clause and of mapper == cache
